@@ -121,7 +121,7 @@ def lean_stage(prop):
     t0 = time.time()
     res = {"ok": True, "obligations": 0, "discharged": 0, "axioms": {}, "errors": [], "broken": []}
     with LakeLock():
-        gen_err = extract.regenerate(REPO, os.path.join(LEAN, "CSD", "Generated"))
+        gen_err = extract.regenerate(REPO, os.path.join(LEAN, "CSD", "Generated"), prop)
         if gen_err:
             res["ok"] = False
             res["errors"].append("extract: " + gen_err)
